@@ -9,6 +9,7 @@ import (
 	stdlog "log"
 	"net"
 	"os"
+	"regexp"
 	"sort"
 	"strings"
 	"sync"
@@ -309,6 +310,8 @@ func (fx *fixture) kvgraph(t pbt.TB) gdbi.GraphInterface {
 	}
 	return fx.kv
 }
+
+var goroutineID = regexp.MustCompile(`\bg\d+\b`)
 
 var hangBudget = func() time.Duration {
 	if s := os.Getenv("VERIF_C15_BUDGET_S"); s != "" {
@@ -691,10 +694,15 @@ func signature(fx *fixture, steps []model.Step, out gripx.Outcome, e expect) (st
 			}
 		}
 		gp, bad := abstractWith(fx.c, true)
+		// judged on the start alone: later steps see the real graph again (a phantom
+		// edge is found by id but never listed by a move)
+		rest := []model.Step{}
+		out, _ := runTab(fx.tg, steps[:1])
+		deviates := out.CompileErr == nil && !out.Hang && expectation(g, steps[:1]).check(out) != ""
 		type combo struct{ d, p, f bool }
 		for _, cb := range []combo{{true, false, false}, {false, true, false}, {false, false, true},
 			{true, true, false}, {true, false, true}, {false, true, true}, {true, true, true}} {
-			if (cb.d && len(kept) == len(start.Args)) || (cb.p && (bad != "" || len(gp.E) == len(g.E))) {
+			if !deviates || (cb.d && len(kept) == len(start.Args)) || (cb.p && (bad != "" || len(gp.E) == len(g.E))) {
 				continue
 			}
 			gg, ids := g, start.Args
@@ -710,9 +718,9 @@ func signature(fx *fixture, steps []model.Step, out gripx.Outcome, e expect) (st
 			ok := false
 			if cb.f {
 				sigs = append(sigs, sigFirstTable)
-				ok = firstTableExplains(fx.c, gg, ids, steps[1:], out)
+				ok = firstTableExplains(fx.c, gg, ids, rest, out)
 			} else {
-				ok = explainedBy(gg, append([]model.Step{model.S("E", append([]string{"\x00no such edge"}, ids...)...)}, steps[1:]...), out)
+				ok = explainedBy(gg, append([]model.Step{model.S("E", append([]string{"\x00no such edge"}, ids...)...)}, rest...), out)
 			}
 			if ok {
 				return strings.Join(sigs, "+"), "the result is what GetEdge's known lookup defects yield: " + strings.Join(sigs, ", ")
@@ -832,7 +840,7 @@ func judge(t pbt.TB, fx *fixture, c Case) {
 				b, _ := json.Marshal(c)
 				fmt.Fprintf(os.Stderr, "C15-DEBUG not closed: %s\n%s\n%s\nCASE %s\n", model.TravString(steps), rep.Reason, rep.Stacks(), b)
 			}
-			pbt.Inconclusive(t, "stream not closed within budget: "+firstWords(rep.Reason))
+			pbt.Inconclusive(t, "stream not closed within budget: "+goroutineID.ReplaceAllString(firstWords(rep.Reason), "g"))
 		}
 		return
 	}
